@@ -16,6 +16,15 @@ def base_objects():
     from stix2 import v20, v21
     ident21 = 'identity--311b2d2d-f010-4473-83ec-1edf84858f4c'
     out = []
+    # types made by the CustomObject decorators version like the built-in ones
+    from stix2 import registry
+    if 'x-vf-c05' not in registry.STIX2_OBJ_MAPS['2.1']['objects']:
+        @v21.CustomObject('x-vf-c05', [('name', stix2.properties.StringProperty())])
+        class Custom21(object): pass
+    if 'x-vf-c05' not in registry.STIX2_OBJ_MAPS['2.0']['objects']:
+        @v20.CustomObject('x-vf-c05', [('name', stix2.properties.StringProperty())])
+        class Custom20(object): pass
+    C21, C20 = registry.STIX2_OBJ_MAPS['2.1']['objects']['x-vf-c05'], registry.STIX2_OBJ_MAPS['2.0']['objects']['x-vf-c05']
     for us in (0, 999, 123456, 999999):
         t = dtm.datetime(2020, 1, 2, 3, 4, 5, us, tzinfo=UTC)
         ts = stix2.utils.format_datetime(stix2.utils.STIXdatetime(t))
@@ -24,6 +33,8 @@ def base_objects():
         out.append(('v21.Relationship', v21.Relationship(ident21, 'related-to', 'identity--c78cb6e5-0c4b-4611-8297-d1b8b55e40b5', created=t, modified=t)))
         out.append(('v20.Identity', v20.Identity(name='a', identity_class='individual', created=t, modified=t)))
         out.append(('v20.Malware', v20.Malware(name='m', labels=['trojan'], created=t, modified=t)))
+        out.append(('v21.CustomObject', C21(name='a', created=t, modified=t)))
+        out.append(('v20.CustomObject', C20(name='a', created=t, modified=t)))
         out.append(('dict21', {'type': 'identity', 'spec_version': '2.1', 'id': ident21, 'created': ts, 'modified': ts, 'name': 'a', 'identity_class': 'individual'}))
         out.append(('dict20', {'type': 'identity', 'id': ident21, 'created': ts[:23] + 'Z' if '.' in ts else ts, 'modified': ts, 'name': 'a', 'identity_class': 'individual'}))
         out.append(('dict-unregistered', {'type': 'x-unreg', 'spec_version': '2.1', 'id': 'x-unreg--311b2d2d-f010-4473-83ec-1edf84858f4c', 'created': ts, 'modified': ts, 'foo': 1}))
@@ -97,6 +108,14 @@ def check_refusals(case):
             V.new_version(obj, **{prop: val})
             return ('refusal#unmodifiable property refused', f'{kind}: changing {prop} was accepted', {})
         except E.UnmodifiablePropertyError: pass
+        # the same name handed over through the documented custom_properties keyword: refused, or at least without effect on the new version
+        if not isinstance(obj, dict):
+            try:
+                nv = V.new_version(obj, custom_properties={prop: val})
+                if nv.get(prop) != obj.get(prop):
+                    return ('refusal#unmodifiable property through custom_properties', f'{kind}: new_version(custom_properties={{{prop!r}: ...}}) gave the new version {prop}={nv.get(prop)!r} (original: {obj.get(prop)!r})', {})
+            except E.STIXError: pass
+            except (ValueError, TypeError): pass
     old = obj['modified']
     for supplied in (old, (old if isinstance(old, str) else None)):
         if supplied is None: continue
@@ -163,7 +182,7 @@ def run(chk):
              if not (isinstance(o, dict) and ('labels' in ch)) and not (k.startswith('v2') and 'Relationship' in k and 'name' in ch) and not (k == 'dict-unregistered' and ch.get('name', 1) is None)]
     steps = [s for s in steps if not ('labels' in s[3] and 'Identity' not in s[0] and 'Malware' not in s[0] and 'Indicator' not in s[0])]
     chk.bounded('native step: clock substituted around the old modified time', steps, check_step, classify=lambda c: (c[0], c[2], tuple(sorted(c[3]))),
-                bound='8 object kinds x 4 microsecond patterns x 8 clock offsets (-1s..+1s) x 5 change sets')
+                bound='10 object kinds x 4 microsecond patterns x 8 clock offsets (-1s..+1s) x 5 change sets')
     chk.bounded('native refusals: unmodifiable properties, non-later modified, revoked', [(k, o) for k, o in objs if k != 'dict-unregistered' and 'Relationship' not in k], check_refusals,
                 classify=lambda c: c[0], bound='each base object')
     ops = ['nv', 'mark', 'unmark', 'revoke']
